@@ -24,7 +24,7 @@ CHECKS = {
              text="Generated-input search over dependency graphs spread across files; oracle is the model's definition-level graph: reported paths must be real closed chains, cyclic SCCs must be reported, scope warnings must equal the model set, reports must be stable under recomputation and, after fixture-defining modules were edited to define no fixture, equal to the reports of an index built from the resulting contents (differential, no model). Exploration only.",
              note="trusted: reference model (model.rs); Tarjan SCC in the harness", ref="DESIGN.md 4 C16", engine="vengine"),
  "C08": dict(technique="metamorphic property testing (proptest): observable snapshot invariant under permutations of the per-file analysis order",
-             text="Generated-input search over workspaces with colliding names; oracle is equality of the full observable snapshot across analysis orders on fresh indexes (all orders for workspaces of <= 6 files in one sub-check), across real parallel scans in child processes with 1/2/3/5/8 workers on widened materialised workspaces, and across 1/3/8-worker scans of real-world package test suites. Differences are admitted entry by entry only with the signature of the two recorded findings. Exploration only.",
+             text="Generated-input search over workspaces with colliding names; oracle is equality of the full observable snapshot across analysis orders on fresh indexes (all orders for workspaces of <= 6 files in one sub-check), across real parallel scans in child processes with 1/2/3/5/8 workers on widened materialised workspaces (one in eight flooded with 2001 filler modules so that the file cache evicts during the scan), and across 1/3/8-worker scans of real-world package test suites. Differences are admitted entry by entry only with the signature of the two recorded findings. Exploration only.",
              note="trusted: the claim (read from scanner.rs) that the scan's schedule reaches the index only through per-file analysis order and DashMap-op interleaving (the latter is C09's)", ref="DESIGN.md 4 C08", engine="vengine"),
  "C03": dict(technique="differential property testing (proptest grammar generator) against an extraction done with CPython's ast/tokenize; plus a real-world corpus as false-alarm guard",
              text="Generated-input search over pytest-style modules; oracle is an independent extractor written on CPython's own parser applying the documented recognisers, compared record by record. Exploration only.",
